@@ -1,9 +1,19 @@
 /-
   C01 — Mode S CRC-24: exact remainder, parity closure, error detection.
+
+  `Spec.remH` is the Horner/LFSR form of "remainder of the frame polynomial modulo
+  G(x) = 0x1FFF409"; `remH_eq_modByMonic` ties it to `%ₘ` in `(ZMod 2)[X]`.
+  Helper lemmas live in `Proofs/CRC/*`; this file only holds the final statements, each
+  followed by an `example` showing its hypotheses are met by a concrete non-trivial input
+  (the real DF17 frame 8D406B902015A678D4D220AA4BDA from the test-suite).
 -/
 import PyModeS.Proofs.Bits
 import PyModeS.Model.Common
+import PyModeS.Proofs.CRC.Model
+import PyModeS.Proofs.CRC.Weight
+import PyModeS.Proofs.CRC.Poly
 namespace PyModeS.C01
+open PyModeS
 
 /-- The generator literals in the source (regenerated on every run) are the Mode S generator
     0x1FFF409: `crc`'s four bytes are its 25 bits left-aligned, `crc_legacy`'s array is its bits. -/
@@ -11,5 +21,151 @@ theorem generator_tables :
     Tables.crcG = [0xFF, 0xFA, 0x04, 0x80] ∧
     bin2int (Tables.crcG.flatMap (natToBits 8)) = 0x1FFF409 <<< 7 ∧
     Tables.crcLegacyGen = natToBits 25 0x1FFF409 := by decide +kernel
+
+/-! ### T1 — the byte-wise divider of `py_common.crc` is the remainder modulo G -/
+
+/-- For every whole number ≥ 3 of bytes (not only 7 or 14), the Python byte-wise long division
+    returns exactly the remainder of the message polynomial modulo G. -/
+theorem crc_eq_remainder (bits : Bits) (h8 : bits.length % 8 = 0) (h24 : 24 ≤ bits.length) :
+    crcBitsPy bits = Spec.remH bits :=
+  CRC.crcBitsPy_eq_remH bits h8 h24
+
+/-- message-level form, `encode=False`: any hex string with an even number ≥ 6 of digits -/
+theorem crc_eq_remainder_msg (m : Msg) (h6 : 6 ≤ m.length) (h2 : m.length % 2 = 0) :
+    crc m false = Spec.remH (hex2binM m) :=
+  CRC.crc_false_eq_remH m h6 h2
+
+example : (hex2bin "8D406B902015A678D4D220AA4BDA").length % 8 = 0 ∧
+    24 ≤ (hex2bin "8D406B902015A678D4D220AA4BDA").length ∧
+    Spec.remH (hex2bin "8D406B902015A678D4D220AA4BDA") = 0 := by decide +kernel
+example : crcBitsPy (hex2bin "8D406B902015A678D4D220AA4BDA") = 0 := by
+  rw [crc_eq_remainder _ (by decide +kernel) (by decide +kernel)]; decide +kernel
+/-- 3-, 4- and 5-byte inputs (lengths the tests never use); `FFFA0480` is G·x^7 -/
+example : crcBitsPy (hex2bin "FFFA05") = 0xFFFA05 ∧ crcBitsPy (hex2bin "FFFA0480") = 0 ∧
+    crcBitsPy (hex2bin "0123456789") = 11879339 ∧
+    Spec.remH (hex2bin "0123456789") = 11879339 := by decide +kernel
+
+/-! ### T2 — `crc_legacy` is the same remainder -/
+
+/-- `crc_legacy` divides `hex2bin(msg)` (with the last 24 bits zeroed when `encode=True`) -/
+theorem crcLegacy_eq_remainder (m : Msg) (encode : Bool) (h : 24 ≤ (hex2binM m).length) :
+    crcLegacy m encode =
+      Spec.remH (if encode then dropLast 24 (hex2binM m) ++ List.replicate 24 false
+                 else hex2binM m) :=
+  CRC.crcLegacy_eq_remH m encode h
+
+/-- hence both implementations agree on every even-length hex string of ≥ 6 digits -/
+theorem crc_eq_crcLegacy (m : Msg) (encode : Bool) (h6 : 6 ≤ m.length) (h2 : m.length % 2 = 0) :
+    crc m encode = crcLegacy m encode :=
+  CRC.crc_eq_crcLegacy m encode h6 h2
+
+example : 24 ≤ (hex2binM "8D406B902015A678D4D220AA4BDA".toList).length ∧
+    crcLegacy "8D406B902015A678D4D220AA4BDA".toList false = 0 ∧
+    crcLegacy "8D406B902015A678D4D220000000".toList true = 0xAA4BDA := by decide +kernel
+
+/-! ### T3 — the remainder fits in 24 bits -/
+
+theorem crc_lt (bits : Bits) : Spec.remH bits < 2 ^ 24 := CRC.remH_lt bits
+
+example : Spec.remH (hex2bin "FFFFFFFFFFFFFFFFFFFFFFFFFFFF") = 3024563 := by decide +kernel
+
+/-! ### T4 — GF(2)-linearity -/
+
+theorem remH_xor (a b : Bits) (h : a.length = b.length) :
+    Spec.remH (xorBits a b) = Spec.remH a ^^^ Spec.remH b :=
+  CRC.remH_xor a b h
+
+example : (hex2bin "8D406B902015A678D4D220AA4BDA").length = (hex2bin "0000000000FF00000000000000A5").length ∧
+    Spec.remH (hex2bin "0000000000FF00000000000000A5") = 11691777 ∧
+    Spec.remH (xorBits (hex2bin "8D406B902015A678D4D220AA4BDA") (hex2bin "0000000000FF00000000000000A5"))
+      = 0 ^^^ 11691777 := by decide +kernel
+
+/-! ### T5 — `encode=True` ignores the parity field -/
+
+/-- With `encode=True`, `crc` returns the remainder of `data · x^24`; the right-hand side does not
+    mention the last 6 hex digits of `m` at all. -/
+theorem crc_encode_ignores_parity (m : Msg) (h6 : 6 ≤ m.length) (h2 : m.length % 2 = 0) :
+    crc m true = Spec.remH (hex2binM (dropLast 6 m) ++ List.replicate 24 false) :=
+  CRC.crc_true_eq_remH m h6 h2
+
+/-- the same on an explicit split `data ++ parity` -/
+theorem crc_encode_ignores_parity' (d p p' : Msg) (hp : p.length = 6) (hp' : p'.length = 6)
+    (hd : d.length % 2 = 0) : crc (d ++ p) true = crc (d ++ p') true := by
+  have e : ∀ q : Msg, q.length = 6 → dropLast 6 (d ++ q) = d := by
+    intro q hq; simp [dropLast, hq]
+  rw [crc_encode_ignores_parity (d ++ p) (by simp [hp]) (by simp [hp]; omega),
+    crc_encode_ignores_parity (d ++ p') (by simp [hp']) (by simp [hp']; omega), e p hp, e p' hp']
+
+example : crc "8D406B902015A678D4D220AA4BDA".toList true = 0xAA4BDA ∧
+    crc "8D406B902015A678D4D220123456".toList true = 0xAA4BDA ∧
+    Spec.remH (hex2binM "8D406B902015A678D4D220".toList ++ List.replicate 24 false) = 0xAA4BDA := by
+  decide +kernel
+
+/-! ### T6 — parity closure: appending the computed parity gives remainder 0 -/
+
+theorem parity_closure (d : Bits) :
+    Spec.remH (d ++ natToBits 24 (Spec.remH (d ++ List.replicate 24 false))) = 0 :=
+  CRC.parity_closure d
+
+example : hex2bin "8D406B902015A678D4D220" ++
+    natToBits 24 (Spec.remH (hex2bin "8D406B902015A678D4D220" ++ List.replicate 24 false)) =
+    hex2bin "8D406B902015A678D4D220AA4BDA" := by decide +kernel
+
+/-! ### T7 — every burst error of length ≤ 24 is detected (any frame length, any position) -/
+
+theorem burst_detected (v e b : Bits) (k m : Nat) (hv : Spec.remH v = 0)
+    (he : e = List.replicate k false ++ b ++ List.replicate m false) (hl : e.length = v.length)
+    (hb : b.length ≤ 24) (ht : true ∈ b) : Spec.remH (xorBits v e) ≠ 0 :=
+  CRC.burst_detected v e b k m hv he hl hb ht
+
+/-- hypotheses are satisfiable: a 24-bit burst `0xC0FFEE` at offset 40 of the real frame -/
+example : ∃ v e b k m, Spec.remH v = 0 ∧
+    e = List.replicate k false ++ b ++ List.replicate m false ∧ e.length = v.length ∧
+    b.length ≤ 24 ∧ true ∈ b ∧ b.length = 24 :=
+  ⟨hex2bin "8D406B902015A678D4D220AA4BDA", _, hex2bin "C0FFEE", 40, 48,
+    by decide +kernel, rfl, by decide +kernel, by decide +kernel, by decide +kernel, by decide +kernel⟩
+/-- the bound 24 is sharp: the generator itself is an undetected burst of length 25 -/
+example : Spec.remH (natToBits 25 Spec.G ++ List.replicate 87 false) = 0 := by decide +kernel
+
+/-! ### T8 — every error of weight 1…5 in a frame of at most 112 bits is detected -/
+
+theorem weight_le5_detected (v e : Bits) (hv : Spec.remH v = 0) (hl : v.length ≤ 112)
+    (he : e.length = v.length) (h1 : 1 ≤ Spec.weight e) (h5 : Spec.weight e ≤ 5) :
+    Spec.remH (xorBits v e) ≠ 0 :=
+  CRC.weight_le5_detected v e hv hl he h1 h5
+
+/-- every multiple of G, of any length, has even weight (G has 16 terms, G(1) = 0) -/
+theorem even_weight_of_remainder_zero (e : Bits) (h : Spec.remH e = 0) : Spec.weight e % 2 = 0 :=
+  CRC.even_weight_of_remH_zero h
+
+/-- hypotheses are satisfiable: five scattered bit flips in the real 112-bit frame -/
+example : Spec.remH (hex2bin "8D406B902015A678D4D220AA4BDA") = 0 ∧
+    (hex2bin "8D406B902015A678D4D220AA4BDA").length ≤ 112 ∧
+    (hex2bin "8000000100000020000000040001").length = (hex2bin "8D406B902015A678D4D220AA4BDA").length ∧
+    Spec.weight (hex2bin "8000000100000020000000040001") = 5 := by decide +kernel
+/-- the bound 5 is sharp on 112 bits: a weight-6 multiple of G exists (minimum distance is 6) -/
+example : Spec.remH (hex2bin "0800000200000200000400000003") = 0 ∧
+    Spec.weight (hex2bin "0800000200000200000400000003") = 6 ∧
+    (hex2bin "0800000200000200000400000003").length = 112 := by decide +kernel
+
+/-! ### T9 — the Horner recursion is the polynomial remainder in `(ZMod 2)[X]` -/
+
+open Polynomial in
+/-- `natPoly n` has the binary digits of `n` as coefficients, `toPoly bits` has `bits` as
+    coefficients (highest degree first, Horner form `p·X + b`), `Gpoly = natPoly 0x1FFF409`. -/
+theorem remH_eq_modByMonic (bits : Bits) :
+    CRC.natPoly (Spec.remH bits) = CRC.toPoly bits %ₘ CRC.Gpoly :=
+  CRC.remH_eq_modByMonic bits
+
+open Polynomial in
+/-- sanity of the definitions used in the bridge -/
+theorem poly_bridge_defs :
+    CRC.Gpoly = CRC.natPoly Spec.G ∧ CRC.Gpoly.Monic ∧ CRC.Gpoly.natDegree = 24 ∧
+    (∀ n i, (CRC.natPoly n).coeff i = if n.testBit i then 1 else 0) ∧
+    CRC.toPoly [] = 0 ∧
+    (∀ l b, CRC.toPoly (l ++ [b]) = CRC.toPoly l * X + C (if b then 1 else 0)) ∧
+    Function.Injective CRC.natPoly :=
+  ⟨rfl, CRC.Gpoly_monic, CRC.Gpoly_natDegree, CRC.coeff_natPoly, CRC.toPoly_nil, CRC.toPoly_snoc,
+    CRC.natPoly_injective⟩
 
 end PyModeS.C01
